@@ -17,7 +17,7 @@ Checks (one per clause of the statement, so that a known finding can be listed p
   C19/pile-children           get_rows_sizes()/render(): what the children are handed and where they land
   C19/pile-packed-fixed-child a ('pack', FIXED-only widget) item in a box Pile
   C19/zero-amounts            zero weights / zero given sizes (outside the statement, in the quantifier): weaker demands
-  C19/padding-values, C19/filler-values, C19/overlay-values     the decoration widgets through their public methods + render
+  C19/padding-values, C19/filler-values, C19/overlay-values, C19/overlay-render   the decoration widgets through their public methods + render
   C19/padding-pack-min-width  Padding(width='pack', min_width=m): documented minimum honoured
   C19/gridflow-layout         every cell at the configured cell width, reading order
 """
@@ -292,7 +292,7 @@ def _int_scale_task(args):
             for v in range(r):
                 case = {"kind_": "int_scale", "val": v, "val_range": r, "out_range": o}
                 bad, got = eval_int_scale(case)
-                t.case(not bad, lambda: case | {"got": got, "why": _why(bad)}, True, case if (v, r, o) == (2, 6, 101) else None, rank=(r, o, v))
+                t.case(not bad, lambda: case | {"got": got, "why": _why(bad)}, True, case if (v, r, o) == (1, 3, 4) else None, rank=(r, o, v))
     return {"int-scale": t}
 
 
@@ -369,7 +369,7 @@ def eval_columns_prop(case):
     return [], widths
 
 
-def _columns_loop(T, specs, ds, ms, maxcols, focuses=None, want_prop=True):
+def _columns_loop(T, specs, ds, ms, maxcols, focuses=None, want_prop=True, covered=None):
     """One instance per (specs, d, m), re-used over focus positions and widths (as an application
     does); a failure is re-evaluated on a fresh instance and both results are recorded."""
     n = len(specs)
@@ -381,6 +381,8 @@ def _columns_loop(T, specs, ds, ms, maxcols, focuses=None, want_prop=True):
             for f in focuses if focuses is not None else range(n):
                 cols.focus_position = f
                 for mc in maxcols:
+                    if covered is not None and mc <= covered[0] and m in covered[1]:
+                        continue  # this very case is enumerated by _columns_task
                     try:
                         widths = list(cols.column_widths((mc,), True))
                         bad = ref.judge_columns(base, _own(specs, mc), d, m, f, mc, widths)
@@ -421,10 +423,10 @@ def _columns_task(args):
 def _columns_weights_task(args):
     """Weighted-only columns for clause (f): weights are enumerated as non-decreasing tuples (the
     allocation sorts by weight, and the clause is symmetric under permutation)."""
-    weight_lists, ds, ms, maxcols = args
+    weight_lists, ds, ms, maxcols, covered = args
     T = {"columns-widths": Tally(), "columns-proportional": Tally()}
     for ws in weight_lists:
-        _columns_loop(T, [("weight", w) for w in ws], ds, ms, maxcols, focuses=(0,))
+        _columns_loop(T, [("weight", w) for w in ws], ds, ms, maxcols, focuses=(0,), covered=covered.get(ws))
     CanvasCache.clear()
     return T
 
@@ -616,7 +618,9 @@ def eval_pile(case, clause="rows"):
                 lines = canvas_rows(canv)
                 obs["canvas"] = lines
                 k, a = specs[f]
-                f_own = 1 if k == "weight" else a
+                # a weighted Pile item has no size of its own (no min height), so "alone fits" is
+                # only defined for given / packed focus items
+                f_own = 0 if k == "weight" else a
                 if 1 <= f_own <= mr and find_box(lines, LETTERS[f]) is None:
                     bad.append(("focus-visible", f"focus item {f} ({f_own} rows) fits alone in {mr} rows but nothing of it is shown: {lines!r}"))
         elif clause == "children":
@@ -667,7 +671,7 @@ def _pile_case(specs, f, mr):
 
 
 def _pile_task(args):
-    spec_lists, maxrows, render_upto = args
+    spec_lists, maxrows, render_upto, render_n = args
     T = {k: Tally() for k in ("pile-rows", "pile-proportional", "pile-fits-available", "pile-children")}
     for specs in spec_lists:
         n = len(specs)
@@ -695,7 +699,7 @@ def _pile_task(args):
                 if f == 0:
                     app, ok, dev, ideals, wv = ref.pile_proportional(base, own, mr, rows)
                     T["pile-proportional"].case(ok, lambda: detail(clause="proportional") | {"deviation": round(float(dev), 3), "exact_shares": [round(float(x), 3) for x in ideals]}, app, case if app and mr == 11 else None, rank=(n, mr, wsum))
-                if mr <= render_upto:
+                if mr <= render_upto and n <= render_n:
                     fb, _fo = eval_pile(case, "fits")
                     T["pile-fits-available"].case(not fb, lambda: detail(clause="fits"), sum(own[i] or 0 for i in range(n)) > mr, case if mr == 3 else None, rank=(n, mr, sum(a for _k, a in specs)))
                     cb, _co = eval_pile(case, "children")
@@ -705,7 +709,7 @@ def _pile_task(args):
 
 
 def _pile_weights_task(args):
-    weight_lists, maxrows = args
+    weight_lists, maxrows, covered = args
     T = {k: Tally() for k in ("pile-rows", "pile-proportional")}
     for ws in weight_lists:
         specs = [("weight", w) for w in ws]
@@ -713,6 +717,8 @@ def _pile_weights_task(args):
         pile = build_pile(specs)
         own = [None] * n
         for mr in maxrows:
+            if mr <= covered.get(ws, -1):
+                continue  # this very case is enumerated by _pile_task
             case = _pile_case(specs, 0, mr)
             try:
                 rows = list(pile.get_item_rows((PILE_COLS, mr), True))
@@ -886,7 +892,7 @@ def eval_padding(case):
 
 def _padding_configs(tier):
     quick = tier == "quick"
-    aligns = ["left", "center", "right", 0, 20, 50, 80, 100] if quick else ["left", "center", "right", *range(0, 101, 10)]
+    aligns = ["left", "center", "right", 0, 30, 100] if quick else ["left", "center", "right", *range(0, 101, 10)]
     margins = [(a, b) for a in range(3 if quick else 4) for b in range(3 if quick else 4)]
     sizes = []
     for g in (0, 1, 3, 6) if quick else range(0, 8):
@@ -898,7 +904,7 @@ def _padding_configs(tier):
             sizes += [(["relative", p], mn, "flow", 0), (["relative", p], mn, "box", 0)]
     for cw in (2, 5) if quick else (1, 2, 5, 9):
         sizes.append(("clip", None, "fixed", cw))
-    maxcols = range(0, 13) if quick else range(0, 25)
+    maxcols = range(0, 11) if quick else range(0, 25)
     return aligns, margins, sizes, maxcols
 
 
@@ -1081,53 +1087,65 @@ def eval_overlay(case):
             # a fixed or flow top widget cannot be given fewer rows than it has: it is clipped
             vb = ref.judge_margins(N, ref.align_pct(case["valign"], case["valign"]), qh, T_, B_, t, b, clip=kind != "box")
             bad += [("h-" + c, w) for c, w in hb] + [("v-" + c, w) for c, w in vb]
+        if NEG:
+            bad.append(("non-negative", f"child handed {NEG[0]!r}"))
+    except Exception as e:  # noqa: BLE001
+        bad += _raised(e)
+    rbad = []
+    try:
         if not bad and M >= 1 and N >= 1:
-            del LOG[:]
+            del LOG[:], NEG[:]
             CanvasCache.clear()
             canv = ov.render((M, N), True)
             rows = canvas_rows(canv)
             obs["canvas"] = rows
             rendered = [sz for op, ch, sz in LOG if op == "render" and ch == "T"]
             if rendered != [tuple(tsize)]:
-                bad.append(("child-size", f"top widget rendered at {rendered!r}, top_w_size says {tsize!r}"))
+                rbad.append(("child-size", f"top widget rendered at {rendered!r}, top_w_size says {tsize!r}"))
             if canv.cols() != M or canv.rows() != N:
-                bad.append(("canvas", f"canvas {canv.cols()}x{canv.rows()} for {(M, N)!r}"))
+                rbad.append(("canvas", f"canvas {canv.cols()}x{canv.rows()} for {(M, N)!r}"))
             x0, x1 = max(l, 0), min(l + cw, M)
             y0, y1 = max(t, 0), min(t + chh, N)
             box = find_box(rows, "T")
             if x1 > x0 and y1 > y0:
                 if box is None or box[:4] != (x0, y0, x1 - x0, y1 - y0) or not box[4]:
-                    bad.append(("position", f"top widget should cover columns {x0}..{x1 - 1}, rows {y0}..{y1 - 1}; found {box!r}"))
+                    rbad.append(("position", f"top widget should cover columns {x0}..{x1 - 1}, rows {y0}..{y1 - 1}; found {box!r}"))
             elif box is not None:
-                bad.append(("position", f"top widget has no visible extent but appears at {box!r}"))
-        if NEG:
-            bad.append(("non-negative", f"child handed {NEG[0]!r}"))
+                rbad.append(("position", f"top widget has no visible extent but appears at {box!r}"))
+            if NEG:
+                rbad.append(("non-negative", f"child handed {NEG[0]!r}"))
     except Exception as e:  # noqa: BLE001
-        bad += _raised(e)
+        rbad += _raised(e)
     finally:
         CanvasCache.clear()
-    return bad, obs
+    obs["render_why"] = _why(rbad)
+    return bad, obs, rbad
 
 
 def _overlay_axis(tier):
     quick = tier == "quick"
-    aligns = ["left", "center", "right", 0, 30, 100] if quick else ["left", "center", "right", *range(0, 101, 10)]
-    margins = [(0, 0), (2, 0), (0, 1), (2, 1)] if quick else [(a, b) for a in range(4) for b in range(4)]
+    aligns = ["left", "center", "right", 30] if quick else ["left", "center", "right", 0, 20, 50, 70, 100]
+    margins = [(0, 0), (2, 0), (0, 1), (2, 1)] if quick else [(a, b) for a in range(3) for b in range(3)]
     sizes = [(g, None) for g in ((1, 2, 5) if quick else range(1, 8))]
     sizes += [(["relative", p], mn) for p in ((30, 100) if quick else (10, 30, 50, 80, 100)) for mn in ((None, 4) if quick else (None, 2, 4, 9))]
     return aligns, margins, sizes
 
 
 def _overlay_task(args):
-    tier, which = args
-    aligns, margins, sizes = _overlay_axis(tier)
+    tier, which, aligns = args
+    _all, margins, sizes = _overlay_axis(tier)
     quick = tier == "quick"
-    avail = range(0, 10) if quick else range(0, 17)
+    avail = range(0, 8) if quick else range(0, 17)
+    other_n, other_m = ((1, 5), (2, 6)) if quick else ((1, 4, 7), (2, 5, 8))
     t = Tally()
+    tr = Tally()
 
     def go(case):
-        bad, obs = eval_overlay(case)
-        t.case(not bad, lambda: case | obs | {"why": _why(bad)}, True, case if case["size"] == [7, 6] else None, rank=(case["size"][0] + case["size"][1], case["left"] + case["right"] + case["top"] + case["bottom"]))
+        bad, obs, rbad = eval_overlay(case)
+        rank = (case["size"][0] + case["size"][1], case["left"] + case["right"] + case["top"] + case["bottom"])
+        t.case(not bad, lambda: case | obs | {"why": _why(bad)}, True, case if case["size"][0] == 5 else None, rank=rank)
+        if not bad and min(case["size"]) >= 1:
+            tr.case(not rbad, lambda: case | obs | {"why": _why(rbad)}, True, case if case["size"][0] == 5 else None, rank=rank)
 
     base = {"kind_": "overlay", "align": "center", "width": 3, "min_width": None, "left": 0, "right": 0, "valign": "middle", "height": 2, "min_height": None, "top": 0, "bottom": 0, "fixed": [3, 2], "area": 6}
     if which == "h":
@@ -1140,7 +1158,7 @@ def _overlay_task(args):
                             if width == "pack" and height != 2:
                                 continue
                             for M in avail:
-                                for N in (1, 4, 7):
+                                for N in other_n:
                                     go(base | {"align": al, "left": L, "right": R, "width": width, "min_width": mn, "height": height, "fixed": fixed, "size": [M, N]})
     else:
         for al in aligns:
@@ -1151,9 +1169,9 @@ def _overlay_task(args):
                             if width == "pack" and height != "pack" and not isinstance(height, int):
                                 continue
                             for N in avail:
-                                for M in (2, 5, 8):
+                                for M in other_m:
                                     go(base | {"valign": al, "top": T_, "bottom": B_, "height": height, "min_height": mn, "width": width, "area": area, "fixed": [3, 2] if height != "pack" else [4, 3], "size": [M, N]})
-    return {"overlay-values": t}
+    return {"overlay-values": t, "overlay-render": tr}
 
 
 # ------------------------------------------------------------------------------------------------
@@ -1252,10 +1270,10 @@ RULES = {
     "padding-values": "Padding.padding_values + render for given/pack/relative/clip widths: clauses of calc-left-right with the requested width taken from the options and the child's pack; child rendered at exactly (maxcol - l - r, ...) and painted at column l",
     "padding-pack-min-width": "Padding(width='pack', min_width=m) with a child that packs narrower than m: the child gets m columns (documented minimum) when they fit",
     "filler-values": "Filler.filler_values + render for given/pack/relative heights, box and flow sized: clauses of calc-top-bottom; child rendered at exactly (maxcol, maxrow - t - b) and painted at row t",
-    "overlay-values": "Overlay.calculate_padding_filler + top_w_size + render: no negative dimension; l + child width + r == maxcol and t + child rows + b == maxrow with the child's real extent (a flow child's rows at the width it is handed); requested size / alignment clauses per axis; painted where the margins say",
+    "overlay-values": "Overlay.calculate_padding_filler + top_w_size: no negative dimension; l + child width + r == maxcol and t + child rows + b == maxrow with the child's real extent (a flow child's rows at the width it is handed); requested size / alignment clauses per axis (a fixed or flow child is clipped, never both clipped and padded)",
+    "overlay-render": "Overlay.render for the configurations whose values pass: no exception, top widget rendered once at top_w_size, canvas maxcol x maxrow, top widget painted exactly where the margins say",
     "gridflow-layout": "GridFlow.render: every cell rendered at (min(cell_width, maxcol),) only, cells in reading order, as many per line as fit, h_sep blank columns / v_sep blank rows between, each line placed by the alignment % to within one, canvas exactly maxcol x needed rows",
 }
-EXHAUSTIVE = {k: True for k in RULES}
 
 
 def _multisets(values, n):
@@ -1275,9 +1293,9 @@ def _plan(tier, seed):
     # arithmetic helpers
     tasks.append((_int_scale_task, (12, 12) if quick else (40, 40)))
     B["int-scale"] = f"val_range 2..{12 if quick else 40}, out_range 1..{12 if quick else 40}, every val in range"
-    av = range(0, 15) if quick else range(0, 25)
+    av = range(0, 13) if quick else range(0, 25)
     aligns = ["left", "center", "right", *range(0, 101, 10)]
-    amax = 16 if quick else 27
+    amax = 14 if quick else 27
     sizes = [("given", g, None) for g in range(0, amax)]
     sizes += [("relative", p, mn) for p in (*range(0, 101, 10), 150) for mn in ((None, 0, 3, 20) if quick else (None, 0, 1, 3, 8, 30))]
     mg = 3 if quick else 4
@@ -1290,22 +1308,35 @@ def _plan(tier, seed):
 
     # Columns
     if quick:
-        opts = [("given", 1), ("given", 2), ("given", 4), ("packF", 1), ("packF", 3), ("packL", 2), ("weight", 1), ("weight", 2), ("weight", 3)]
+        opts = [("given", 1), ("given", 3), ("packF", 2), ("packL", 3), ("weight", 1), ("weight", 2), ("weight", 3)]
         nmax, ds, ms, mcs = 3, (0, 1, 2), (1, 2), range(0, 15)
     else:
         opts = [("given", g) for g in (1, 2, 3, 4, 6)] + [("packF", 1), ("packF", 3), ("packF", 5), ("packL", 2), ("packL", 6), ("packB", 4)] + [("weight", w) for w in (1, 2, 3, 4, 6)]
         nmax, ds, ms, mcs = 4, (0, 1, 2), (1, 2, 3), range(0, 25)
-    lists = [l for n in range(1, nmax + 1) for l in itertools.product(opts, repeat=n)]
-    for ch in _chunks(lists, 8 if quick else 64):
+    lists = [l for n in range(1, min(nmax, 3) + 1) for l in itertools.product(opts, repeat=n)]
+    for ch in _chunks(lists, 8 if quick else 48):
         tasks.append((_columns_task, (ch, ds, ms, mcs)))
-    B["columns-widths"] = f"every ordered list of 1..{nmax} columns over {len(opts)} options {opts}, dividechars {list(ds)}, min_width {list(ms)}, every focus position, maxcol 0..{mcs[-1]}; + weighted-only lists of the proportional check; + seeded random lists (see there)"
+    opts4 = [("given", 1), ("given", 3), ("given", 6), ("packF", 2), ("packL", 4), ("packB", 3), ("weight", 1), ("weight", 2), ("weight", 3), ("weight", 5)]
+    if nmax >= 4:
+        for ch in _chunks(list(itertools.product(opts4, repeat=4)), 160):
+            tasks.append((_columns_task, (ch, (0, 1), (1, 2), mcs)))
+    B["columns-widths"] = (
+        f"every ordered list of 1..3 columns over {len(opts)} options {opts}, dividechars {list(ds)}, min_width {list(ms)}, every focus position, maxcol 0..{mcs[-1]}; "
+        + (f"every ordered list of 4 columns over {opts4}, dividechars 0..1, min_width 1..2; " if nmax >= 4 else "")
+        + "+ weighted-only lists of the proportional check; + seeded random lists (see there)"
+    )
     wvals = (1, 2, 3, 5, 9) if quick else tuple(range(1, 10))
     wn = 6
     wlists = [l for n in range(2, wn + 1) for l in _multisets(wvals, n)]
     wmc = range(0, 31) if quick else range(0, 41)
-    wds, wms = ((0, 1), (1, 2)) if quick else ((0, 1), (1, 2, 3))
+    wds, wms = ((0,), (1, 2)) if quick else ((0, 1), (1, 2, 3))
+    # lists already enumerated above (same dividechars / min_width / focus 0) are not counted twice
+    w3 = {a for k, a in opts if k == "weight"}
+    w4 = {a for k, a in opts4 if k == "weight"} if nmax >= 4 else set()
+    covered = {l: (mcs[-1], tuple(ms)) for l in wlists if len(l) <= 3 and set(l) <= w3}
+    covered.update({l: (mcs[-1], (1, 2)) for l in wlists if len(l) == 4 and set(l) <= w4})
     for ch in _chunks(wlists, 4 if quick else 32):
-        tasks.append((_columns_weights_task, (ch, wds, wms, wmc)))
+        tasks.append((_columns_weights_task, (ch, wds, wms, wmc, {l: covered[l] for l in ch if l in covered})))
     rc = (8, 250, 7, 12, 20, 60) if quick else (32, 2500, 8, 15, 30, 120)
     for k in range(rc[0]):
         tasks.append((_columns_random_task, (seed * 1000 + k, *rc[1:])))
@@ -1316,11 +1347,12 @@ def _plan(tier, seed):
     copts = [("given", 2, "flow"), ("given", 3, "box"), ("pack", 2, "fixed"), ("pack", 3, "flow"), ("weight", 1, "flow"), ("weight", 2, "box")]
     if not quick:
         copts += [("given", 5, "flow"), ("weight", 3, "flow"), ("pack", 4, "fixed")]
-    clists = [l for n in range(1, 4) for l in itertools.product(copts, repeat=n)]
     csizes = [(mc,) for mc in (range(0, 11) if quick else range(0, 17))] + [(mc, 3) for mc in (range(0, 11, 2) if quick else range(0, 17))]
-    for ch in _chunks(clists, 8 if quick else 32):
-        tasks.append((_columns_children_task, (ch, (0, 1), (1, 2), csizes)))
-    B["columns-children"] = f"every ordered list of 1..3 columns over {copts}, dividechars 0..1, min_width 1..2, every focus, sizes (c,) and (c,3) for c up to {csizes[-1][0]}"
+    for n in range(1, 4):
+        cdm = ((1,), (1,)) if quick and n == 3 else ((0, 1), (1, 2))
+        for ch in _chunks(list(itertools.product(copts, repeat=n)), (1, 1, 8)[n - 1] if quick else (1, 4, 48)[n - 1]):
+            tasks.append((_columns_children_task, (ch, *cdm, csizes)))
+    B["columns-children"] = f"every ordered list of 1..3 columns over {copts}, dividechars 0..1, min_width 1..2{' (1 and 1 for 3 columns)' if quick else ''}, every focus, sizes (c,) and - for all-box lists - (c,3), c up to {csizes[-1][0]}"
 
     # Pile
     popts = [("given", 1), ("given", 2), ("given", 4), ("packL", 1), ("packL", 3), ("weight", 1), ("weight", 2), ("weight", 3)]
@@ -1328,16 +1360,18 @@ def _plan(tier, seed):
         popts += [("given", 6), ("weight", 5), ("packL", 2)]
     pn = 3 if quick else 4
     plists = [l for n in range(1, pn + 1) for l in itertools.product(popts, repeat=n) if any(k == "weight" for k, _a in l)]
-    pmr = range(0, 15) if quick else range(0, 25)
+    pmr = range(0, 13) if quick else range(0, 25)
     for ch in _chunks(plists, 8 if quick else 64):
-        tasks.append((_pile_task, (ch, pmr, 8 if quick else 12)))
+        tasks.append((_pile_task, (ch, pmr, 6 if quick else 12, 3)))
     B["pile-rows"] = f"every ordered list of 1..{pn} items over {popts} with at least one weighted item, every focus, maxrow 0..{pmr[-1]} (maxcol {PILE_COLS}); + the weighted-only lists of pile-proportional"
-    B["pile-fits-available"] = B["pile-children"] = f"the same lists, maxrow 0..{8 if quick else 12}; pile-fits counts as non-trivial the cases whose fixed rows overflow"
+    B["pile-fits-available"] = B["pile-children"] = f"the same lists up to 3 items, maxrow 0..{6 if quick else 12}; pile-fits counts as non-trivial the cases whose fixed rows overflow"
     pw_ordered = [l for n in range(2, 5 if quick else 6) for l in itertools.product((1, 2, 3, 5, 9) if quick else (1, 2, 3, 4, 5, 7, 9), repeat=n)]
     pw_sorted = [l for n in range(5 if quick else 6, 7) for ms_ in _multisets(wvals, n) for l in {ms_, ms_[::-1]}]
+    pw3 = {a for k, a in popts if k == "weight"}
+    pcovered = {l: pmr[-1] for l in pw_ordered if len(l) <= pn and set(l) <= pw3}  # already in pile-rows' lists
     pwmr = range(0, 31) if quick else range(0, 41)
     for ch in _chunks(pw_ordered + pw_sorted, 4 if quick else 32):
-        tasks.append((_pile_weights_task, (ch, pwmr)))
+        tasks.append((_pile_weights_task, (ch, pwmr, {l: pcovered[l] for l in ch if l in pcovered})))
     B["pile-proportional"] = f"the lists of pile-rows, plus weighted-only piles: every ordered tuple of 2..{4 if quick else 5} weights from {[1, 2, 3, 5, 9] if quick else [1, 2, 3, 4, 5, 7, 9]} and every ascending/descending multiset of {5 if quick else 6}..6 weights from {list(wvals)}, maxrow 0..{pwmr[-1]}"
     pf = [l for n in range(1, 4) for l in itertools.product([("packF", 1), ("packF", 3), ("weight", 1), ("weight", 2), ("given", 2)], repeat=n) if any(k == "weight" for k, _a in l) and any(k == "packF" for k, _a in l)]
     tasks.append((_pile_fixed_task, (pf, range(0, 9))))
@@ -1363,12 +1397,13 @@ def _plan(tier, seed):
     for ch in _chunks(faligns, len(faligns)):
         tasks.append((_filler_task, (ch, pmargins, fheights, pmaxcols)))
     B["filler-values"] = f"valigns {faligns} (as top/middle/bottom/relative); {len(fheights)} height/min/child settings (given, pack with flow child of 3 or 10 cells, relative); top,bottom 0..{2 if quick else 3}; size (4, r) r 0..{pmaxcols[-1]} and (4,) where Filler is a flow widget"
-    tasks.append((_overlay_task, (tier, "h")))
-    tasks.append((_overlay_task, (tier, "v")))
     oa = _overlay_axis(tier)
-    B["overlay-values"] = f"one axis in full (aligns {oa[0]}, margins {oa[1][:4]}.., sizes given/relative(+min)/pack) against 3 settings of the other axis; fixed, flow (rows = ceil(area/width)) and box top widgets; available 0..{9 if quick else 16} on the full axis"
+    for al in oa[0]:
+        tasks.append((_overlay_task, (tier, "h", [al])))
+        tasks.append((_overlay_task, (tier, "v", [al])))
+    B["overlay-values"] = f"one axis in full (aligns {oa[0]}, margins {oa[1][:4]}.., sizes given/relative(+min)/pack) against 3 settings of the other axis; fixed, flow (rows = ceil(area/width)) and box top widgets; available 0..{7 if quick else 16} on the full axis"
     if quick:
-        g = ((1, 2, 3, 5), (1, 2, 3, 5), (0, 1, 2), (0, 2), ["left", "center", 30], range(1, 13))
+        g = ((1, 3, 5), (1, 2, 3, 5), (0, 1, 2), (0, 2), ["left", "center", 30], range(1, 11))
     else:
         g = (range(1, 7), range(1, 7), (0, 1, 2), (0, 1, 2), ["left", "center", "right", 30], range(1, 21))
     for n in g[0]:
@@ -1379,12 +1414,12 @@ def _plan(tier, seed):
 
 def _run_task(t):
     fn, args = t
-    t0 = time.time()
+    t0 = time.process_time()
     with warnings.catch_warnings():
         warnings.simplefilter("ignore")
         out = fn(args)
     CanvasCache.clear()
-    return out, time.time() - t0
+    return out, time.process_time() - t0  # CPU seconds of the worker (wall is meaningless on a loaded box)
 
 
 def run(tier="quick", seed=0):
@@ -1425,7 +1460,7 @@ _EVAL = {
     "padding": lambda name, c: eval_padding(c),
     "padding_pack_min": lambda name, c: eval_padding_pack_min(c),
     "filler": lambda name, c: eval_filler(c),
-    "overlay": lambda name, c: eval_overlay(c),
+    "overlay": lambda name, c: (lambda r: (r[2] if name.endswith("overlay-render") and not r[0] else r[0], r[1]))(eval_overlay(c)),
     "gridflow": lambda name, c: eval_gridflow(c),
 }
 
